@@ -1,6 +1,7 @@
 //! `hv`: runtime-monitoring harnesses for the threaded (default-feature) build of Humphrey.
 //! One sub-command per property; each writes a result file for the driver.
 
+mod c02;
 mod c05;
 mod c13;
 mod c18;
@@ -11,6 +12,7 @@ use hvcommon::args::Args;
 fn main() {
     let args = Args::from_env();
     match args.cmd() {
+        "c02" => c02::main(&args),
         "c05" => c05::main(&args),
         "c13" => c13::main(&args),
         "c18" => c18::main(&args),
